@@ -13,7 +13,11 @@ types - dict / OrderedDict, dict views, set / frozenset, str, range, deque, list
 subclass, objects offering only one protocol (__iter__; __iter__+__len__;
 __reversed__+__len__; __getitem__+__len__), generators, other Mapping types, an
 undefined value - and held to its contract wherever the subject offers the
-protocol the docstring names; elsewhere only the four drives must agree."""
+protocol the docstring names; elsewhere only the four drives must agree.  Every
+filter with a string-valued argument is also driven with that argument held as a
+string marked safe (Markup, ``'..'|safe`` inline), as a plain str subclass and
+(join's delimiter) as a number, join over items with HTML metacharacters: with
+autoescape off the kind of an argument may not change the result."""
 from __future__ import annotations
 
 import collections
@@ -77,7 +81,18 @@ RULE = ("cases = (filter, subject kind, elements, positional/keyword arguments);
         "iterates as empty and items of it is empty), with expected items = what iterating the "
         "subject yields; otherwise only call_filter/template and sync/async agreement is "
         "demanded (never for random). Re-iterable subjects are re-read after every drive and "
-        "must still hold the same elements. distinct = distinct (filter, kind, elements, args, "
+        "must still hold the same elements. ARGUMENT KINDS: for the 15 filters that take a "
+        "string-valued argument (join delimiter, batch/slice fill value, attribute paths, "
+        "groupby/map defaults, map's filter name and its operands, select/reject test names and "
+        "string operands, dictsort by) an enumerated grid (every (filter, kind), 3 times - join "
+        "8 times - from fixed seeds) and one random case per four cases of the main workload "
+        "(every second one on join) hold one or more of those arguments in another kind of "
+        "value: a string marked safe (markupsafe.Markup; written 'lit'|safe when the template "
+        "passes arguments inline), a plain str subclass, and for join's delimiter an int / "
+        "float (the separator as text); join items are then drawn from strings with HTML "
+        "metacharacters, some marked safe. Autoescape is off, so the contract is the same as "
+        "with plain str arguments (join = str(d).join(str(x) ...), items untouched); the "
+        "mechanism key names parameter and kind (filter:join/arg:d:markup/result). distinct = distinct (filter, kind, elements, args, "
         "kwargs) tuples with >= 2 elements")
 LEVEL_TEXT = ("held on K generated executions of the real filters covering the enumerated edge "
               "grid completely and a seeded random sample of the argument space; no claim beyond "
@@ -121,6 +136,12 @@ _TYPED_FLOORS.update({"typed:" + f: 30 for f in (
     "dictsort", "items", "random")})
 # the time box always lets 200 random cases per shard through, so the quick
 # floors sit just under what grid + 16 x 200 cases produce
+# argument kinds (quick tier: 115 grid cases + >= 50 random ones per shard; a seed-0 run
+# gives 923 / 517 / 295 / 166 / 175 / 465 / 111 / 186)
+_ARGKIND_FLOORS = {"argkind_cases": 230, "argkind:markup": 130, "argkind:strsub": 70,
+                   "argkind:number": 40, "argkind_inline_safe_literal": 40,
+                   "argkind_join_non_str_delimiter": 110,
+                   "argkind_join_safe_delimiter_html_items": 25, "argkind_join_safe_items": 45}
 FLOORS = {
     "quick": {"evaluations": 16000, "distinct": 3000,
               "counters": {"calls:call": 4000, "calls:tmpl": 4000, "calls:acall": 4000,
@@ -145,7 +166,8 @@ FLOORS = {
                            "typed_contract_cases": 1100, "typed_oracle_evaluations": 4400,
                            "typed_contract_non_sequence_subject": 500,
                            "typed_agreement_only_cases": 100, "typed_undefined_subjects": 60,
-                           "typed_subject_snapshots": 4400, **_TYPED_FLOORS}},
+                           "typed_subject_snapshots": 4400, **_TYPED_FLOORS,
+                           "argkind_grid_cases": 100, **_ARGKIND_FLOORS}},
     "thorough": {"evaluations": 600000, "distinct": 100000,
                  "counters": {"calls:call": 150000, "calls:tmpl": 150000, "calls:acall": 150000,
                               "calls:atmpl": 150000, "oracle_evaluations": 600000,
@@ -167,7 +189,9 @@ FLOORS = {
                               "typed_agreement_only_cases": 2500,
                               "typed_undefined_subjects": 1500,
                               "typed_subject_snapshots": 100000,
-                              **{k: v * 20 for k, v in _TYPED_FLOORS.items()}}},
+                              **{k: v * 20 for k, v in _TYPED_FLOORS.items()},
+                              "argkind_grid_cases": 100,
+                              **{k: v * 20 for k, v in _ARGKIND_FLOORS.items()}}},
 }
 N_RANDOM = {"quick": 2000, "thorough": 80000}
 
@@ -191,6 +215,10 @@ FOLD_CLUSTERS = [
     (["µ", "μ", "ŉ", "ʼn", "ν", "n"], ["Μ", "ʼN", "Ν", "N"]),
     (["ᾳ", "αι", "ǆ", "α", "β"], ["ᾼ", "ΑΙ", "ǅ", "Ǆ", "Α"]),
 ]
+# argument-kind workload: items / delimiters with HTML metacharacters (a filter that
+# treats a safe-marked argument as a request to escape shows on them)
+HTML_WORDS = ["<a>", "b & c", '"q"', "x'y", "<b>y</b>", "&amp;", "1 < 2", "plain", "A>B", "", "é<"]
+HTML_DELIMS = ["<br>", " & ", ", ", "<hr/>", "|", "&nbsp;", " > ", "-"]
 LENGTHS = [0, 1, 1, 2, 2, 3, 3, 4, 5, 6, 7, 8, 9, 10, 12, 15, 24]
 FILTERS = SP.ALL_FILTERS
 
@@ -292,7 +320,9 @@ def kinds_for(name):
 
 
 # --------------------------------------------------------------- generators
-def gen_case(rng, name):
+def gen_case(rng, name, html=False):
+    """``html``: the join cases draw items and delimiters that contain HTML
+    metacharacters (argument-kind workload); the default stream is unchanged."""
     n = pick_len(rng)
     kind = rng.choice(kinds_for(name))
     args, kwargs = [], {}
@@ -476,14 +506,16 @@ def gen_case(rng, name):
         r = rng.random()
         attr = None
         d = rng.choice(["", "", ",", ", ", "|", " - ", "—", "\n", "ab"])
-        if r < 0.3:
-            data = words(rng, n)
+        if html:
+            d = rng.choice(HTML_DELIMS)
+        if r < 0.3 or (html and r < 0.45):
+            data = words(rng, n, HTML_WORDS if html else WORDS)
         elif r < 0.5:
             data = ints(rng, n)
         elif r < 0.6:
             data = [rng.choice([None, 0, "", "x", 2.5, True, "A b"]) for _ in range(n)]
         else:
-            data = records(rng, n)
+            data = records(rng, n, pool=HTML_WORDS if html else None)
             attr = rng.choice(STR_ATTRS + INT_ATTRS + ["email", "score"])
         args, kwargs = argstyle(rng, ["d", "attribute"], [d, attr])
         args, kwargs = drop_defaults(rng, name, args, kwargs)
@@ -592,6 +624,156 @@ def gen_test(rng, n):
     if rng.random() < 0.3:
         return [rng.choice(bag + [True, False]) for _ in range(n)], tb
     return [rng.choice(bag) for _ in range(n)], t
+
+
+# --------------------------------------------------------------- argument kinds
+# Every filter that takes a string-valued argument (delimiter, fill value,
+# attribute path, default, filter / test name and their string operands, ``by``)
+# is also driven with that argument held in another KIND of value: a string marked
+# safe (markupsafe.Markup - in an inline template written ``'..'|safe``), a plain
+# str subclass, and - for join's delimiter, which is turned into text - a number.
+# The contract is unchanged: a str subclass is a string, autoescape is off, so the
+# kind of an argument may not alter the result.
+ARG_KINDS = ["markup", "markup", "strsub"]
+NUMBER_DELIMS = {"int": [0, 7, -1, 10], "float": [1.5, 0.0, -2.25]}
+
+
+def _wrap(v, kind):
+    if kind == "markup":
+        from markupsafe import Markup
+
+        return Markup(v)
+    if kind == "strsub":
+        return F.StrSub(v)
+    return v
+
+
+def case_data(case):
+    data = F.dec(case["data"])
+    w = case.get("wrap")
+    if w:
+        for i, k in w.get("data", {}).items():
+            data[int(i)] = _wrap(data[int(i)], k)
+    return data
+
+
+def case_args(case):
+    args = F.dec(case["args"])
+    kwargs = F.dec(case["kwargs"])
+    w = case.get("wrap")
+    if w:
+        for i, k in w.get("args", {}).items():
+            args[int(i)] = _wrap(args[int(i)], k)
+        for n, k in w.get("kwargs", {}).items():
+            kwargs[n] = _wrap(kwargs[n], k)
+    return args, kwargs
+
+
+def _is_html(x):
+    return isinstance(x, str) and any(c in x for c in "<>&'\"")
+
+
+def gen_argkind_case(rng, name, kind=None, min_len=0):
+    """A generated case of ``name`` in which at least one string-valued argument
+    is held in another kind of value; None when the generator produced no string
+    argument in a few attempts (filters without one)."""
+    for _ in range(12):
+        case = gen_case(rng, name, html=True)
+        if case["kind"] == "str":
+            continue
+        args, kwargs = F.dec(case["args"]), F.dec(case["kwargs"])
+        if len(F.dec(case["data"])) < min_len:
+            continue
+        names = arg_names(name, args, kwargs)
+        slots = [("args", str(i), names[i]) for i, a in enumerate(args) if type(a) is str]
+        slots += [("kwargs", k, k) for k, a in kwargs.items() if type(a) is str]
+        if not slots:
+            continue
+        rng.shuffle(slots)
+        if name == "join":
+            # the delimiter (turned into text by the filter) first
+            slots.sort(key=lambda t: t[2] != "d")
+        chosen = slots[:rng.choice([1, 1, 1, 2, len(slots)])]
+        wrap = {"args": {}, "kwargs": {}, "data": {}}
+        tags = []
+        for where, key, pname in sorted(chosen):
+            k = kind or rng.choice(ARG_KINDS)
+            if name == "join" and pname == "d" and kind is None and rng.random() < 0.3:
+                k = rng.choice(sorted(NUMBER_DELIMS))
+            if k in NUMBER_DELIMS:
+                if not (name == "join" and pname == "d"):
+                    k = "markup"
+                else:
+                    v = rng.choice(NUMBER_DELIMS[k])
+                    if where == "args":
+                        args[int(key)] = v
+                    else:
+                        kwargs[key] = v
+                    tags.append(f"{pname}:number")
+                    continue
+            wrap[where][key] = k
+            tags.append(f"{pname}:{k}")
+        data = F.dec(case["data"])
+        if name == "join" and isinstance(data, list):
+            # string items marked safe among plain ones
+            for i, x in enumerate(data):
+                if type(x) is str and rng.random() < 0.3:
+                    wrap["data"][str(i)] = "markup"
+        case["args"], case["kwargs"] = F.enc(args), F.enc(kwargs)
+        case["wrap"] = wrap
+        case["argtag"] = "/arg:" + "+".join(sorted(tags))
+        case["via_render"] = False
+        return case
+    return None
+
+
+# filters whose generated cases carry a string-valued argument
+ARGKIND_FILTERS = ["batch", "slice", "unique", "groupby", "sort", "dictsort", "min", "max",
+                   "sum", "join", "map", "select", "reject", "selectattr", "rejectattr"]
+
+
+def argkind_grid_cases():
+    """Every (filter, argument kind) the generators can fill, three times, from
+    fixed seeds, plus join's delimiter as every kind x item shapes (the same
+    list in every shard and for every VERIF_SEED)."""
+    import random
+
+    out = []
+    for name in FILTERS:
+        for kind in ("markup", "strsub") + (("int", "float") if name == "join" else ()):
+            rng = random.Random(f"c22-argkind-grid:{name}:{kind}")
+            for rep in range(3 if name != "join" else 8):
+                case = gen_argkind_case(rng, name, kind, min_len=1 + rep % 3)
+                if case is not None:
+                    out.append(case)
+    return out
+
+
+def count_argkind(ctx, case):
+    ctx.count("argkind_cases")
+    w = case["wrap"]
+    kinds = set(w["args"].values()) | set(w["kwargs"].values())
+    for k in sorted(kinds):
+        ctx.count("argkind:" + k)
+    if ":number" in case["argtag"]:
+        ctx.count("argkind:number")
+    if case["inline"] and "markup" in kinds:
+        ctx.count("argkind_inline_safe_literal")
+    if case["filter"] == "join":
+        args, kwargs = case_args(case)
+        p = SP.bind("join", args, kwargs)
+        g = SP.getter(p["attribute"])
+        try:
+            html_items = sum(1 for x in case_data(case) if _is_html(g(x)))
+        except Exception:  # noqa: BLE001 - only a workload counter
+            html_items = 0
+        if type(p["d"]) is not str:
+            ctx.count("argkind_join_non_str_delimiter")
+            if html_items and hasattr(p["d"], "__html__"):
+                # a delimiter marked safe between items that hold HTML metacharacters
+                ctx.count("argkind_join_safe_delimiter_html_items")
+        if w["data"]:
+            ctx.count("argkind_join_safe_items")
 
 
 # --------------------------------------------------------------- subject types
@@ -825,9 +1007,8 @@ def resnap(subject, kind):
 
 
 def build(case, is_async):
-    data = F.dec(case["data"])
-    args = F.dec(case["args"])
-    kwargs = F.dec(case["kwargs"])
+    data = case_data(case)
+    args, kwargs = case_args(case)
     kind = case["kind"]
     if not is_async:
         kind = SYNC_KIND.get(kind, kind)
@@ -870,7 +1051,7 @@ def same_elements(S, a, b):
 
 def template_src(case, args, kwargs, variables):
     name = case["filter"]
-    expr = F.filter_expr(name, args, kwargs, variables, inline=case["inline"])
+    expr = filter_expr(name, args, kwargs, variables, inline=case["inline"])
     form = case["form"]
     lazy = name in SP.ITERATOR_RESULT and not (name == "reverse" and case["kind"] == "str")
     if lazy and form == "for":
@@ -878,6 +1059,28 @@ def template_src(case, args, kwargs, variables):
     if lazy:
         return "{{ rec(" + expr + "|list) }}"
     return "{{ rec(" + expr + ") }}"
+
+
+def filter_expr(name, args, kwargs, variables, inline=False):
+    """F.filter_expr, keeping the kind of a string argument: a string marked safe
+    is written ``'..'|safe`` when inline, any other str subclass is always passed
+    as a variable."""
+    def keeps_kind(a):
+        return type(a) is str or not isinstance(a, str)
+
+    if all(keeps_kind(a) for a in list(args) + list(kwargs.values())):
+        return F.filter_expr(name, args, kwargs, variables, inline=inline)
+    parts = []
+    for key, a, prefix in [(f"a{i}", a, "") for i, a in enumerate(args)] \
+            + [(f"k_{k}", a, f"{k}=") for k, a in kwargs.items()]:
+        lit = F.literal(a if keeps_kind(a) else str(a)) if inline else None
+        if lit is not None and not keeps_kind(a):
+            lit = f"({lit}|safe)" if hasattr(a, "__html__") else None
+        if lit is None:
+            variables[key] = a
+            lit = key
+        parts.append(prefix + lit)
+    return f"data|{name}({', '.join(parts)})"
 
 
 PATHS = ("call", "tmpl", "acall", "atmpl")
@@ -952,10 +1155,37 @@ def twin_of(case):
     return twin
 
 
+def plain_twin_of(case):
+    """The same case with every argument a plain str (a numeric join delimiter as
+    its text)."""
+    twin = {k: v for k, v in case.items() if k not in ("wrap", "argtag")}
+    if ":number" in case["argtag"]:
+        args, kwargs = F.dec(case["args"]), F.dec(case["kwargs"])
+        if "d" in kwargs:
+            kwargs["d"] = str(kwargs["d"])
+        elif args:
+            args[0] = str(args[0])
+        twin["args"], twin["kwargs"] = F.enc(args), F.enc(kwargs)
+    return twin
+
+
 def run_case(ctx, rig, case, count=True):
     """Typed cases: a violation that the same elements on a plain list / dict
     show as well is reported under the key without the subject kind (the
     mechanism does not depend on the container)."""
+    if case.get("wrap"):
+        # argument-kind cases: a violation that the same case with plain str
+        # arguments shows as well does not depend on the kind of the argument
+        col = _Collector(ctx)
+        profile = _run_case(col, rig, case, count)
+        if col.viol:
+            tcol = _Collector(None)
+            _run_case(tcol, rig, plain_twin_of(case), count=False)
+            tkeys = {k for k, _, _ in tcol.viol}
+            for key, what, c in col.viol:
+                base = key.replace(case["argtag"], "")
+                ctx.violation(base if base in tkeys else key, what, c)
+        return profile
     if not case.get("typed"):
         return _run_case(ctx, rig, case, count)
     col = _Collector(ctx)
@@ -976,9 +1206,12 @@ def run_case(ctx, rig, case, count=True):
 
 def _run_case(ctx, rig, case, count=True):
     name = case["filter"]
-    ref_data = F.fp(F.dec(case["data"]))
-    ref_args = [F.fp(a) for a in F.dec(case["args"])]
-    ref_kwargs = {k: F.fp(v) for k, v in F.dec(case["kwargs"]).items()}
+    ref_data = F.fp(case_data(case))
+    _a, _k = case_args(case)
+    ref_args = [F.fp(a) for a in _a]
+    ref_kwargs = {k: F.fp(v) for k, v in _k.items()}
+    # argument-kind cases: the mechanism key names the parameter and its kind
+    rkey = name + case.get("argtag", "")
     desc = None
     sync_norm = None
     alias_ref = {}      # 'call' / 'tmpl' -> aliasing of the sync result
@@ -988,7 +1221,7 @@ def _run_case(ctx, rig, case, count=True):
     # for the list/tuple/generator/... subjects of the main workload)
     covered = SP.covered(name, case["kind"]) if typed else True
     # typed subjects: the mechanism key names the kind of container
-    fkey = f"{name}/subject:{SP.KIND_GROUP[case['kind']]}" if typed else name
+    fkey = f"{name}/subject:{SP.KIND_GROUP[case['kind']]}" if typed else rkey
     for path in PATHS:
         out, data, items, args, kwargs, S, kind, moved = drive(rig, case, path)
         ctx.ev()
@@ -1029,8 +1262,7 @@ def _run_case(ctx, rig, case, count=True):
         if count and (covered or not typed):
             ctx.count("typed_oracle_evaluations" if typed else "oracle_evaluations")
         if desc is None:
-            desc = (f"{name} on {kind} {F.dec(case['data'])!r:.300} args={F.dec(case['args'])!r} "
-                    f"kwargs={F.dec(case['kwargs'])!r}")
+            desc = f"{name} on {kind} {case_data(case)!r:.300} args={_a!r} kwargs={_k!r}"
         if moved is not None:
             ctx.violation(f"mutates:{'async' if is_async else 'sync'}:{fkey}/arg:value",
                           f"[{path}] {desc}: the subject container holds {moved!r:.300} after "
@@ -1052,7 +1284,7 @@ def _run_case(ctx, rig, case, count=True):
                           f"{sync_norm!r:.300}" + (f" ({verdict[1]})" if verdict else ""), case)
         elif norm != sync_norm:
             if not is_async:
-                ctx.violation(f"template:{name}/differs-from-call_filter",
+                ctx.violation(f"template:{rkey}/differs-from-call_filter",
                               f"[{path}] {desc}: template gives {out.describe()}"
                               + (f" ({verdict[1]})" if verdict else ""), case)
             else:
@@ -1067,7 +1299,7 @@ def _run_case(ctx, rig, case, count=True):
                         rv = rv + g(x)
                     if S.same(out.value, rv):
                         aspect = "float-accumulation-order-differs-from-sync"
-                ctx.violation(f"async:{name}/{aspect}",
+                ctx.violation(f"async:{rkey}/{aspect}",
                               f"[{path}] {desc}: async environment gives {out.describe()}, sync "
                               f"call_filter gave {sync_norm!r:.300}"
                               + (f" ({verdict[1]})" if verdict else ""), case)
@@ -1203,6 +1435,14 @@ def run_typed(ctx, rig, case, tally):
         ctx.dist([name, kind, case["data"], case["args"], case["kwargs"]])
 
 
+def run_argkind(ctx, rig, case):
+    run_case(ctx, rig, case)
+    count_argkind(ctx, case)
+    if nontrivial(case):
+        ctx.dist([case["filter"], case["kind"], case["data"], case["args"], case["kwargs"],
+                  case["wrap"]])
+
+
 def run(ctx):
     rig = F.Rig()
     per_filter = {f: 0 for f in FILTERS}
@@ -1219,6 +1459,14 @@ def run(ctx):
                 ctx.count("typed_grid_cases")
         ctx.extra["typed_grid_size"] = len(tgrid) if ctx.shard == 0 else 0
         trng = ctx.rng("typed")
+        # ---- argument kinds: every (filter, kind), statically partitioned
+        agrid = argkind_grid_cases()
+        for i, case in enumerate(agrid):
+            if ctx.mine(i):
+                run_argkind(ctx, rig, case)
+                ctx.count("argkind_grid_cases")
+        ctx.extra["argkind_grid_size"] = len(agrid) if ctx.shard == 0 else 0
+        arng = ctx.rng("argkind")
         # ---- enumerated grid, statically partitioned
         grid = grid_cases()
         done = 0
@@ -1255,6 +1503,17 @@ def run(ctx):
                     run_typed(ctx, rig, tcase, tally)
                     if i < 8 and ctx.shard == 3:
                         ctx.sample(tcase)
+            # ---- the same generators with other argument kinds (1 per 4 cases;
+            # every second one on join, whose delimiter is turned into text)
+            if i % 4 == 1:
+                j = i // 4
+                aname = "join" if j % 2 else ARGKIND_FILTERS[(j // 2 + ctx.shard)
+                                                             % len(ARGKIND_FILTERS)]
+                acase = gen_argkind_case(arng, aname)
+                if acase is not None:
+                    run_argkind(ctx, rig, acase)
+                    if i < 8 and ctx.shard == 7:
+                        ctx.sample(acase)
             i += 1
         for f, c in tally["filter"].items():
             ctx.count("typed:" + f, c)
